@@ -428,34 +428,38 @@ def verticesLoop : List Line → Map Val → Out Err (Map Val)
     | .ok m' => verticesLoop ls m'
     | o => o
 
+/-- last part of `build_2d_from_cmap_file`: `set_betas` for every dart, `[UNUSED]`, `[VERTICES]` -/
+def buildMap (ns : Nat) (f : CFile) (T : Nat → Nat → Nat) : Out Err (Map Val) :=
+  match setLoop T (List.range' 1 f.nd) (Map.empty 3 ns (f.nd + 1)) with
+  | .ok m1 =>
+    match unusedLoop ((f.unused.getD []).flatten) m1 with
+    | .ok m2 => verticesLoop (f.vertices.getD []) m2
+    | o => o
+  | o => o
+
+/-- middle part: the structural checks on the parsed images (null dart, range, then per dart the
+    inverse test and the β2 test) -/
+def buildRows (ns : Nat) (f : CFile) (rows : List Nat × List Nat × List Nat) : Out Err (Map Val) :=
+  if !nullOK (tbl rows) then .err (errInconsistent 4) else
+  if !rangeOK (tbl rows) (f.nd + 1) then .err (errInconsistent 5) else
+  match (List.range' 1 f.nd).findSome? (dartCheck (tbl rows)) with
+  | some e => .err e
+  | none => buildMap ns f (tbl rows)
+
 /-- `build_2d_from_cmap_file` (after the validation fix 7170072); `ns` = number of attribute
     storages of the builder's manager plus one (storage 0 = vertices), all created undefined with
     `n_darts` slots.  Order: dimension, number and lengths of the β lines, parse every image,
     null dart, range, per dart inverse / β2, `set_betas`, `[UNUSED]`, `[VERTICES]`. -/
 def build (ns : Nat) (f : CFile) : Out Err (Map Val) :=
   if f.dim ≠ 2 then .err (errBadMeta 3) else
-  let n := f.nd + 1
-  let m0 : Map Val := Map.empty 3 ns n
   match f.betas with
   | [l0, l1, l2] =>
-    if l0.length ≠ n then .err (errInconsistent 1) else
-    if l1.length ≠ n then .err (errInconsistent 2) else
-    if l2.length ≠ n then .err (errInconsistent 3) else
+    if l0.length ≠ f.nd + 1 then .err (errInconsistent 1) else
+    if l1.length ≠ f.nd + 1 then .err (errInconsistent 2) else
+    if l2.length ≠ f.nd + 1 then .err (errInconsistent 3) else
     match parseRows l0 l1 l2 with
     | .error e => .err e
-    | .ok rows =>
-      let T := tbl rows
-      if !nullOK T then .err (errInconsistent 4) else
-      if !rangeOK T n then .err (errInconsistent 5) else
-      match (List.range' 1 f.nd).findSome? (dartCheck T) with
-      | some e => .err e
-      | none =>
-        match setLoop T (List.range' 1 f.nd) m0 with
-        | .ok m1 =>
-          match unusedLoop ((f.unused.getD []).flatten) m1 with
-          | .ok m2 => verticesLoop (f.vertices.getD []) m2
-          | o => o
-        | o => o
+    | .ok rows => buildRows ns f rows
   | _ => .err (errInconsistent 0)
 
 /-- the two stages in sequence (as `builder/tests.rs` chains them); through the public
